@@ -136,6 +136,16 @@ class Scheduler(callbacks.Plugin):
     def die(self):
         self._flush()
         world.flushers.remove(self._flush)
+        # The events were just saved and are restored when the plugin is
+        # loaded again; left in the schedule they would run on behalf of this
+        # dead instance and then be restored (and run) a second time.
+        for (name, event) in self.events.items():
+            if event['type'] == 'single':
+                name = int(name)
+            try:
+                schedule.removeEvent(name)
+            except KeyError:
+                pass
         self.__parent.die()
 
     def _makeCommandFunction(self, network, msg, command, remove=True):
